@@ -409,14 +409,14 @@ theorem finishCall_shape {cfg : Cfg} {s t s1 : Store} (hrel : ShapeEq s t) {π :
 
 /-! ### programs -/
 
-theorem eval_shape (cfg : Cfg) : ∀ (fuel : Nat) (p : SProg) (π : Path) (x x' : Int) (l l' l1 : Local)
+theorem eval_shape : ∀ (fuel : Nat) (cfg : Cfg) (p : SProg) (π : Path) (x x' : Int) (l l' l1 : Local)
     (s t s1 : Store), ShapeEq s t → LocalShape l l' → eval cfg fuel p π x l s = (.ok l1, s1) →
     ∃ l1' t1, eval cfg fuel p π x' l' t = (.ok l1', t1) ∧ LocalShape l1 l1' ∧ ShapeEq s1 t1 := by
   intro fuel
   induction fuel with
-  | zero => intro p π x x' l l' l1 s t s1 _ _ h; simp [eval] at h
+  | zero => intro cfg p π x x' l l' l1 s t s1 _ _ h; simp [eval] at h
   | succ fuel ih =>
-    intro p π x x' l l' l1 s t s1 hrel hl h
+    intro cfg p π x x' l l' l1 s t s1 hrel hl h
     cases p with
     | skip =>
       simp only [eval, Prod.mk.injEq, Except.ok.injEq] at h
@@ -430,8 +430,8 @@ theorem eval_shape (cfg : Cfg) : ∀ (fuel : Nat) (p : SProg) (π : Path) (x x' 
         cases res with
         | error e => simp at h
         | ok l2 =>
-          obtain ⟨l2', t2, e1, hl2, hr2⟩ := ih a π x x' l l' l2 s t s2 hrel hl ha
-          obtain ⟨l3', t3, e2, hl3, hr3⟩ := ih b π x x' l2 l2' l1 s2 t2 s1 hr2 hl2 h
+          obtain ⟨l2', t2, e1, hl2, hr2⟩ := ih cfg a π x x' l l' l2 s t s2 hrel hl ha
+          obtain ⟨l3', t3, e2, hl3, hr3⟩ := ih cfg b π x x' l2 l2' l1 s2 t2 s1 hr2 hl2 h
           exact ⟨l3', t3, by simp only [eval, e1]; exact e2, hl3, hr3⟩
     | bind e =>
       simp only [eval] at h
@@ -593,7 +593,7 @@ theorem eval_shape (cfg : Cfg) : ∀ (fuel : Nat) (p : SProg) (π : Path) (x x' 
             | ok lk =>
               simp only at h
               obtain ⟨lk', t2, e1, hlk, hr2⟩ :=
-                ih (bindArg w k.body) (π ++ [k.name]) av av' {} {} lk s t s2 hrel (LocalShape.refl _) hb
+                ih cfg (bindArg w k.body) (π ++ [k.name]) av av' {} {} lk s t s2 hrel (LocalShape.refl _) hb
               cases hf : finishCall cfg (π ++ [k.name]) lk s2 with
               | mk res2 s3 =>
                 rw [hf] at h
@@ -605,6 +605,29 @@ theorem eval_shape (cfg : Cfg) : ∀ (fuel : Nat) (p : SProg) (π : Path) (x x' 
                   obtain ⟨lk2', t3, e2, _, hr3⟩ := finishCall_shape hr2 hlk hf
                   exact ⟨push l' lk2'.out, t3, by simp [eval, hl.kids_eq, hk, hav', e1, e2],
                     push_shape hl _ _, hr3⟩
+    | nested body m V a =>
+      simp only [eval] at h ⊢
+      cases he : evalE x l.env a with
+      | error err => simp [he] at h
+      | ok av =>
+        simp only [he] at h
+        obtain ⟨av', hav'⟩ := evalE_shape (x' := x') hl.env_len a av he
+        simp only [hav']
+        by_cases hbs : badStructure V = true
+        · simp [hbs] at h
+        · simp only [hbs, Bool.false_eq_true, if_false] at h ⊢
+          cases hb : eval (nestedCfg cfg) fuel body [] av {} (Scope.bind m V ["params"]) with
+          | mk res si =>
+            rw [hb] at h
+            cases res with
+            | error e => simp at h
+            | ok li =>
+              simp only [Prod.mk.injEq, Except.ok.injEq] at h
+              obtain ⟨rfl, rfl⟩ := h
+              obtain ⟨li', ti, e1, _, _⟩ := ih (nestedCfg cfg) body [] av av' {} {} li _ _ si (ShapeEq.refl _)
+                (LocalShape.refl _) hb
+              rw [e1]
+              exact ⟨_, t, rfl, push_shape (push_shape hl _ _) _ _, hrel⟩
 
 /-! ### init -/
 
@@ -644,7 +667,7 @@ theorem init_shapes (cfg : Cfg) (fuel : Nat) (p : SProg) (m : LFilter) (rngs : L
     | error e => simp at h
     | ok l1 =>
       simp only at h
-      obtain ⟨l1', t1, e1, hl1, hr1⟩ := eval_shape cfg fuel p [] x x' {} {} l1 _ _ s1 (ShapeEq.refl _)
+      obtain ⟨l1', t1, e1, hl1, hr1⟩ := eval_shape fuel cfg p [] x x' {} {} l1 _ _ s1 (ShapeEq.refl _)
         (LocalShape.refl _) hev
       cases hf : finishCall cfg [] l1 s1 with
       | mk res2 s2 =>
